@@ -187,10 +187,12 @@ def r_terms(k):
         return r_setop(0)
     if k == 17:
         return AliasedQuery("aq", QS[0].from_(t).select(t.a))
+    if k == 18:
+        return -(t.a)
     raise AssertionError(k)
 
 
-NTERMS = 18
+NTERMS = 19
 
 # ---- cases: (receiver factory, call) -----------------------------------------------------------
 # call(R, s, n, v): v = 1 uses the symbolic leaves, v = 2, 3 use distinct concrete ones
@@ -587,3 +589,37 @@ def c01_pairs(pair: tuple, d: int, s: str, n: int) -> int:
     if not allowed(a, d) or not allowed(b, d):
         return SKIP
     return step("c01_pairs", pair[0], d, s, n, follow=b)
+
+
+def extra_evidence():
+    """Which of the @builder methods found in the live package are exercised by the case catalogue (concrete run)."""
+    import inspect
+    import sys
+    from harness import introspect
+
+    wrapped = {}
+    for qn, cls, name in introspect.defining_builder_methods():
+        w = introspect.wrapped(inspect.getattr_static(cls, name))
+        wrapped[w.__code__] = qn.split(".")[-1] + "." + name
+    hit = set()
+
+    def prof(frame, event, arg):
+        if event == "call" and frame.f_code in wrapped:
+            hit.add(wrapped[frame.f_code])
+
+    for name in CASE_NAMES:
+        fac, call = CASES[name]
+        for d in range(ND):
+            if not allowed(name, d):
+                continue
+            try:
+                R = fac(d)
+                sys.setprofile(prof)
+                try:
+                    call(R, "zz", 3, 1)
+                finally:
+                    sys.setprofile(None)
+            except Exception:
+                pass
+    return dict(builder_methods_defined=len(wrapped), builder_methods_exercised=len(hit),
+                not_exercised=sorted(set(wrapped.values()) - hit), cases=len(CASE_NAMES))
